@@ -1102,12 +1102,37 @@ impl Planner {
             return Ok(None);
         }
 
-        // Use the optimized batch lookup for multiple conditions
-        let conditions_ref: Vec<(&str, Value)> = conditions
+        // The filter compares numbers by value (1 = 1.0) while the index is keyed by the
+        // typed value, so a numeric literal is looked up in both forms.
+        let numeric_twin = |v: &Value| match v {
+            Value::Int64(i) => Some(Value::Float64(*i as f64)),
+            Value::Float64(f) if f.fract() == 0.0 && f.abs() < 9.0e15 => {
+                Some(Value::Int64(*f as i64))
+            }
+            _ => None,
+        };
+        let mut matching_nodes = if conditions
             .iter()
-            .map(|(p, v)| (p.as_str(), v.clone()))
-            .collect();
-        let mut matching_nodes = self.store.find_nodes_by_properties(&conditions_ref);
+            .any(|(_, v)| matches!(v, Value::Int64(_) | Value::Float64(_)))
+        {
+            // Candidates from one indexed condition; the predicate is re-evaluated below.
+            let (prop, value) = conditions
+                .iter()
+                .find(|(prop, _)| self.store.has_property_index(prop))
+                .expect("has_indexed_condition checked above");
+            let mut nodes = self.store.find_nodes_by_property(prop, value);
+            if let Some(twin) = numeric_twin(value) {
+                nodes.extend(self.store.find_nodes_by_property(prop, &twin));
+            }
+            nodes
+        } else {
+            // Use the optimized batch lookup for multiple conditions
+            let conditions_ref: Vec<(&str, Value)> = conditions
+                .iter()
+                .map(|(p, v)| (p.as_str(), v.clone()))
+                .collect();
+            self.store.find_nodes_by_properties(&conditions_ref)
+        };
         self.retain_visible_nodes(&mut matching_nodes);
 
         // If there's a label filter, also filter by label
